@@ -8,6 +8,7 @@ CFG = dict(
         "Inst.gen_keep_spec: SparseVector::try_from_dense keeps exactly the components with val != 0.0",
         "Inst.gen_constants: |v| > 1e-6 and sparse_threshold 0.5 in the representation choice",
         "Inst.gen_zero_guards: the degenerate-vector test is `norm == 0.0` both in the index's cosine_distance_{dense,dense_with_registry,sparse} and in the exact scan's cosine_similarity",
+        "Inst.gen_twins: search_sequential/search_parallel and search_sequential_with_metric/search_parallel_with_metric are the same iterator chain (iter vs par_iter) with nothing in front of it",
         "Inst.gen_fallback: post-filtered search (search_with_post_filter, search_filtered_in_collection) falls back to the exact filtered search when fewer than k matches survive and the candidate list was cut off",
     ],
     crate="nvh_c06",
@@ -17,7 +18,7 @@ CFG = dict(
     shard=60,
     rule="seeded store/overwrite/delete/batch/clear/build/search programs over the default and named collections of the real VectorEngine",
     trusted_base=COMMON_TB + [
-        "modelled, not verified: f32 arithmetic (scores are an arbitrary function in the theorems; in the correspondence runs they are the bits returned by the implementation's own metric functions: VectorEngine::compute_similarity, hnsw::simd::dot_product, the euclidean formula of compute_score re-evaluated with the same operations, HNSWDistanceMetric::to_similarity(EmbeddingStorage::distance_dense)); HashMap scan order as a universally quantified permutation; the HNSW index as an arbitrary function returning (node id, score) pairs -- that its node ids are distinct and its scores true is a premise of C06_cached_safe_partial, checked on the real index by the harness; graph construction, level sampling and recall are not modelled; rayon parallel paths (>= 5000 keys / >= 100 batch inputs), search timeouts, max_dimension, persistence (save/load index), entity embeddings, IVF/PQ indexes and pagination are outside the model",
+        "modelled, not verified: f32 arithmetic (scores are an arbitrary function in the theorems; in the correspondence runs they are the bits returned by the implementation's own metric functions: VectorEngine::compute_similarity, hnsw::simd::dot_product, the euclidean formula of compute_score re-evaluated with the same operations, HNSWDistanceMetric::to_similarity(EmbeddingStorage::distance_dense)); HashMap scan order as a universally quantified permutation; the HNSW index as an arbitrary function returning (node id, score) pairs -- that its node ids are distinct and its scores true is a premise of C06_cached_safe_partial, checked on the real index by the harness; graph construction, level sampling and recall are not modelled; the rayon twin of batch_store_embeddings (>= 100 inputs; it attempts every element instead of stopping at the first rejected one) -- the rayon twins of the exact scans ARE exercised (runs with parallel_threshold 1..4), search timeouts, max_dimension, persistence (save/load index), entity embeddings, IVF/PQ indexes and pagination are outside the model",
     ],
     assumptions=[
         "no NaN score: vectors and queries are finite (the sort comparator maps incomparable scores to Equal, which is not a total preorder); the theorems carry this as an explicit premise",
